@@ -232,3 +232,33 @@ package server
 //@ callers (*partition).sendAck serves C04: (*partition).messageProcessingLoop, (*partition).processPendingMessage, (*partition).commitLoop
 //@ callers (*partition).processPendingMessage serves C04: (*partition).messageProcessingLoop
 //@ callers (*partition).sendTooLargeNack serves C04: (*partition).messageProcessingLoop
+
+// ---------------------------------------------------------------------------------------------
+// Follower side of replication (property C02): data and HW are taken only from the current leader epoch
+//@ ghost var newest int64
+//@ func (*partition).handleReplicationResponse serves C02
+//@   requires p != nil && msg != nil
+//@   ghost after call NewestOffset: ghost.newest := ret0
+//@   call SetHighWatermark requires [current-epoch-only] p.isFollowing && p.LeaderEpoch == leaderEpoch
+//@   call AppendMessageSet requires [current-epoch-only] p.isFollowing && p.LeaderEpoch == leaderEpoch
+//@   call AppendMessageSet requires [appends-at-the-end] offset >= ghost.newest + 1
+
+// truncateUncommitted: truncate to one past the offset the leader reported for this log's last epoch;
+// the HW fallback is taken only when the request failed
+//@ ghost var askedEpoch uint64
+//@ ghost var leaderAnswer int64
+//@ ghost var leaderErr error
+//@ func (*partition).truncateUncommitted serves C02
+//@   requires p != nil
+//@   ghost after call LastLeaderEpoch: ghost.askedEpoch := ret0
+//@   ghost after call sendLeaderOffsetRequest: ghost.leaderAnswer := ret0
+//@   ghost after call sendLeaderOffsetRequest: ghost.leaderErr := ret1
+//@   call sendLeaderOffsetRequest requires [asks-for-own-last-epoch] arg1 == ghost.askedEpoch
+//@   call Truncate requires [to-leader-answer-plus-one] ghost.leaderErr == nil && arg1 == ghost.leaderAnswer + 1
+//@   call truncateToHW requires [fallback-only-on-error] ghost.leaderErr != nil
+//@   loop 1 invariant 0 <= i && (i > 0 ==> lastOffset == ghost.leaderAnswer && err == ghost.leaderErr)
+
+// the leader answers an epoch-offset request from its epoch cache for exactly the requested epoch
+//@ func (*partition).handleLeaderOffsetRequest serves C02
+//@   requires p != nil && msg != nil
+//@   call LastOffsetForLeaderEpoch requires [requested-epoch] arg1 == req.LeaderEpoch
